@@ -161,7 +161,10 @@ def fixed_like(rng, fs):
                 'equalize': cal and rng.random() < 0.5}
     file_fs = int(fs) if float(fs) == int(fs) and rng.random() < 0.7 else rng.choice([44100, 8000])
     norm = rng.choice(['pe', 'rms', None])
-    return {'t': 'wav', 'fs': fs, 'n': rng.randint(1, 300), 'seed': rng.randint(0, 5), 'wdtype': rng.choice(['i2', 'f4']),
+    # (a file so short that it resamples to zero samples makes scipy.signal.resample divide by zero inside load_wav:
+    # not generated, no property speaks about it)
+    return {'t': 'wav', 'fs': fs, 'n': rng.randint(int(file_fs / fs) + 2, 300), 'seed': rng.randint(0, 5),
+            'wdtype': rng.choice(['i2', 'f4']),
             'file_fs': file_fs, 'norm': norm, 'cal': cal and norm is not None, 'level': 80 if cal and norm is not None else None}
 
 
@@ -502,13 +505,24 @@ class C01(Spec):
         'WavSequenceFactory, wav loading, chirp/click waveform synthesis are not modelled (Chirp/Click/WavFile factories '
         'are FixedWaveform instances over an opaque array)',
     ]
-    ASSUMPTIONS = ['start, duration, rise, delay >= 0; chunk sizes >= 0; carriers produce finite samples']
+    ASSUMPTIONS = ['start, duration, rise, delay >= 0; chunk sizes >= 1 (Python int or signed NumPy integer); carriers produce finite samples']
     RULE = ('per generator class: seeded random parameters (fs in {1000, 25000, 44100, 48828.125, 97656.25, 100000, '
             '195312.5}; times on the sample grid, off it and at .5 ties; modulation periods integer, dyadic, '
             'non-terminating), N up to ~1500 incl. past the end of finite stimuli, random partitions and partitions '
             'with cuts at -2..+2 around every structural index; function-level fragments (envelope, _sam_envelope, '
             'square_wave) at random and boundary (offset, samples). Non-trivial = at least two chunks (factory) / '
-            'offset > 0 (fragment); distinct = distinct case hash.')
+            'offset > 0 (fragment); distinct = distinct case hash. Hardening block (kinds tagged /var /int /hist /scale '
+            '/many /route /huge): every constructor option at a non-default value, all-positional vs all-keyword spelling, '
+            'fs and times as Python int / NumPy scalar, fixed arrays of dtype f4/i2/i4/u1/bool and strided / reversed / '
+            'read-only layout, the FixedWaveform subclasses (chirp, click, band-limited click, wav file incl. resampling), '
+            'repeat inside other factories and of a repeat, rejected repeats; histories with reset() (before any draw, '
+            'mid-way, after completion, twice), get_samples_remaining(), np.int64/np.int32 chunk sizes, the caller '
+            'overwriting every chunk it received, a second object over the same ndarray or differing in one parameter drawn '
+            'interleaved (reference from a separate interpreter), single requests recomputed in a fresh interpreter; chunks '
+            'of 2^16..2^20 samples mixed with 1-sample chunks, 3000-draw histories; fragment functions through '
+            'cos2envelope / sam_envelope / keyword spelling / samples=auto / transform / repeated call after the caller '
+            'overwrote the result, tone and sam_tone fragments, offsets beyond 2^31 (reference: a longer fragment starting '
+            'up to 40 samples earlier).')
     exhaustive_note = {
         'thorough': 'all 2^(N-1) ordered partitions for N <= 12 of gate/envelope/sam/square/fixed/repeat factories '
                     'with parameters (start, duration, rise, delay, period) <= 6 samples',
